@@ -795,9 +795,37 @@ def _quantify_idx(ex, e, universal):
     """forall_idx / exists_idx over a sequence; a concatenation is quantified part by part (the
     statement about A + [x] is the statement about A and the one about x), which is what the
     solvers do not find by themselves"""
-    seq = vl.simp(seq_term(ex, ex.ev(e.args[0]), e))
+    arg0 = ex.ev(e.args[0])
     lam = e.args[1]
     names = [a.arg for a in lam.args.args]
+    if isinstance(arg0, V) and (static_kind(arg0.t) == 'VStr' or
+                                (hasattr(ex, 'known_kind') and ex.known_kind(arg0.t) == 'VStr')):
+        # over the characters of a string (one-character strings)
+        sstr = vl.simp(get_s(arg0.t))
+        i = fresh('i', vl.Int)
+        ex.eng.nonneg.add(i.get_id())
+        ex.eng._nonneg_keep.append(i)
+        src, bound = sstr, z3.Length(sstr)
+        if z3.is_app(sstr) and sstr.decl().kind() == z3.Z3_OP_SEQ_EXTRACT and z3.is_int_value(sstr.arg(1)) \
+                and sstr.arg(1).as_long() == 0:
+            # a prefix S[:k] with 0 <= k <= len(S) known: its characters are those of S, and there are k
+            k = vl.simp(sstr.arg(2))
+            if ex.is_nonneg(k) and vl.simp(z3.Length(sstr.arg(0))).get_id() in ex.eng.le_len.get(k.get_id(), ()):
+                src, bound = sstr.arg(0), k
+        saved = dict(ex.env)
+        ex.env[names[0]] = V(VInt(i))
+        if len(names) > 1:
+            ex.env[names[1]] = V(VStr(z3.SubString(src, i, 1)))
+        sm = ex.spec_mode
+        ex.spec_mode = True
+        try:
+            body = as_bool(ex.ev(lam.body))
+        finally:
+            ex.spec_mode = sm
+            ex.env = saved
+        guard = z3.And(i >= 0, i < bound)
+        return mk_bool(z3.ForAll([i], z3.Implies(guard, body)) if universal else z3.Exists([i], z3.And(guard, body)))
+    seq = vl.simp(seq_term(ex, arg0, e))
 
     def body_at(idx, elem):
         idx = vl.simp(idx)
